@@ -259,7 +259,7 @@ fn singles(o: &Opts, r: &mut Rng) -> Vec<Single> {
         v.push(nested("2024/01/01 x\n  A  1 USD ", "(", n, "n", ")", "\n"));
         v.push(nested("2024/01/01 ", "(", n, "c", ")", " p\n"));
         v.push(nested("", ";", n, "", "\n", ""));
-        v.push(nested("2024/01/01 x\n", "  A  1 USD\n", n.min(1000), "", "", "  B\n"));
+        v.push(nested("2024/01/01 x\n", "  A  1 USD\n", n.min(300), "", "", "  B\n"));
     }
     // huge and tiny literals
     for n in [27usize, 28, 29, 30, 38, 39, 40, 100, 1000, 100000] {
